@@ -138,3 +138,18 @@ Qed.
 
 Lemma lxor_0_r' : forall x, Z.lxor x 0 = x.
 Proof. apply Z.lxor_0_r. Qed.
+
+(* or of bit-disjoint pieces is addition *)
+Lemma lor_disjoint : forall a b k, 0 <= k -> 0 <= a < 2 ^ k -> Z.lor a (b * 2 ^ k) = a + b * 2 ^ k.
+Proof.
+  intros a b k Hk Ha.
+  assert (Hl : Z.land a (b * 2 ^ k) = 0).
+  { apply Z.bits_inj'. intros i Hi. rewrite Z.land_spec, Z.bits_0.
+    destruct (Z_lt_ge_dec i k) as [Hlt | Hge].
+    - rewrite Z.mul_pow2_bits_low by lia. apply andb_false_r.
+    - replace (Z.testbit a i) with false; [reflexivity|].
+      symmetry. destruct (Z.eq_dec a 0) as [-> | Hne]; [apply Z.bits_0|].
+      apply Z.bits_above_log2; [lia|]. apply Z.log2_lt_pow2; [lia|].
+      apply Z.lt_le_trans with (2 ^ k); [lia|]. apply Z.pow_le_mono_r; lia. }
+  rewrite <- Z.lxor_lor by exact Hl. symmetry. apply Z.add_nocarry_lxor. exact Hl.
+Qed.
